@@ -18,7 +18,7 @@
    contract of the mutex object (unconditionally it is refuted below); both need an invariant
    over the thread-local work lists. *)
 From Coq Require Import List Arith Sorted.
-From Pika Require Import Base.Conc Model.RwMutex Proofs.RwMutexProofs Proofs.RwMutexLogProofs Proofs.RwMutexReqProofs Proofs.RwMutexQueueProofs.
+From Pika Require Import Base.Conc Model.RwMutex Proofs.RwMutexProofs Proofs.RwMutexLogProofs Proofs.RwMutexReqProofs Proofs.RwMutexQueueProofs Proofs.RwMutexDoneProofs.
 Import ListNotations.
 
 (* wrappers of two different groups never exist at the same time: a read-write access never
@@ -169,6 +169,22 @@ Theorem C04_rw_progress_partial : forall sched, let g := fst (rw_run sched) in
   (forall e, head (grp g (tgrp (tok g e))) = HSent -> tst (tok g e) <> TQueued).
 Proof. exact rw_no_lost_push. Qed.
 Print Assumptions C04_rw_progress_partial.
+
+(* first layer of the work-list invariant needed for rw_progress / the guarded [bad = false] (both still
+   NOT proven, see notes/design/C04.md): done() is issued at most once per shared state and in destructor
+   order.  In every reachable state (all schedules, no contract assumed)
+   - a group has at most one "local taken from next_state" (TDone token): its predecessor's destructor took
+     next_state once;
+   - such a local for group S p exists only after the destructor body of p has finished (phase 3, count 0);
+   - the sentinel of a successor group S p is set (done() ran) only after the destructor body of p finished.
+   Together with C04_rw_queue_wellformed this is what makes the head test of WDx ("second done()") and the
+   creation of the WDx item sound; what is missing for [bad = false] is the per-thread list predicate. *)
+Theorem C04_rw_done_once : forall sched, let g := fst (rw_run sched) in
+  (forall e e' t t', tst (tok g e) = TDone t -> tst (tok g e') = TDone t' -> tgrp (tok g e) = tgrp (tok g e') -> e = e') /\
+  (forall e t, tst (tok g e) = TDone t -> exists p, tgrp (tok g e) = S p /\ gphase (grp g p) = 3 /\ refs (grp g p) = 0) /\
+  (forall p, S p < ngrp g -> head (grp g (S p)) = HSent -> gphase (grp g p) = 3 /\ refs (grp g p) = 0).
+Proof. exact rw_done_once. Qed.
+Print Assumptions C04_rw_done_once.
 
 (* [bad = false] in every reachable state is FALSE for the model as written: it lets other
    threads use the sender of a request and issue mutex calls while the requesting thread is
